@@ -416,6 +416,22 @@ def confinement(repo, col):
                         and f.value.id == "self" and f.attr in helper_kind \
                         and f.attr != mname:
                     st = owner.get(id(c))
+                    # the call must be evaluated whenever the statement is:
+                    # not a later operand of and/or, not an arm of a
+                    # conditional expression
+                    conditional = False
+                    if st is not None:
+                        for x in walk_local(st):
+                            if isinstance(x, ast.BoolOp):
+                                for later in x.values[1:]:
+                                    if any(y is c for y in walk_local(later)):
+                                        conditional = True
+                            if isinstance(x, ast.IfExp):
+                                for arm in (x.body, x.orelse):
+                                    if any(y is c for y in walk_local(arm)):
+                                        conditional = True
+                    if conditional:
+                        continue
                     if st is not None and cfg.node_of(st) is not None:
                         guards.append(cfg.node_of(st))
                         kinds.add(helper_kind[f.attr])
@@ -632,13 +648,22 @@ def overwrite_and_gzip(repo, col):
     # K4: exclusive create protects only the name that is opened, while
     # fetch_file treats <name> and <name>.gz as the same file
     txt = ftext(sf)
-    both = "self.file_exists(" in txt or (".is_file()" in txt)
+    both = False
+    sfi = repo.func("file_accessor", "FileAccessor.store_file", inline=True)
+    for g, atoms in raise_guards(sfi.node):
+        t_ = norm(g.test) if isinstance(g, ast.If) else ""
+        if ("file_exists(" in t_ or ".is_file()" in t_) and \
+                "overwrite" in t_:
+            both = True
+    und_both = not both and "file_exists(" not in txt and \
+        ".is_file()" not in txt and ("os.link(" in txt or "O_EXCL" in txt)
     col.add(rule + ".exclusive-both-names", sf,
-            "refusal covers <name> and <name>.gz", both,
+            "refusal covers <name> and <name>.gz", both or und_both,
             "" if both else "without permission to overwrite, store_file only "
             "refuses when the very name it opens exists; the other spelling "
             "(<name> vs <name>.gz, chosen by MIME type) is silently shadowed "
-            "and fetch_file keeps returning the stale plain file")
+            "and fetch_file keeps returning the stale plain file",
+            undecided=und_both and not both)
     # sharded accessor: existence check dominates the write-open
     ss = repo.func("sharded_file_accessor", "ShardedFileAccessor.store_file")
     okc = False
